@@ -846,6 +846,14 @@ def depth1_programs(unary, binary, nleaves):
 def rehide_programs():
     n = len(LEAVES)
     out = []
+    # in-place operators applied after cached queries, bare and under a reduction: always complete (the detection of
+    # seeded change C03-A had depended on which of these the quick sample happened to contain)
+    for b in sorted(k for k in BINARY if k.endswith('_q')):
+        for i in range(n):
+            for j in range(n):
+                out.append([b, ['leaf', i], ['leaf', j]])
+                if (i + j) % 2 == 0:
+                    out.append(['sum', [b, ['leaf', i], ['leaf', j]]])
     # values hidden by a step of the program itself: observer(rehide(mask_where(cmp(a, b), c)))
     for cmp_ in ('eq', 'ne', 'lt', 'le'):
         for i in range(n):
